@@ -3,6 +3,7 @@ package exec
 import (
 	"errors"
 	"fmt"
+	"os"
 	"sort"
 	"strings"
 	"testing"
@@ -10,6 +11,7 @@ import (
 	"verif/lib/evid"
 	"verif/lib/execgen"
 	"verif/lib/host"
+	"verif/lib/prog"
 )
 
 // C28 — host failures are never swallowed (level: fault_enumeration).
@@ -111,16 +113,11 @@ func faultVerdict(res host.Result, faults []*host.Fault) (string, string) {
 	if !last.Fired {
 		return "not-reached", ""
 	}
-	// no SetValue after the fault
-	for _, w := range res.Writes {
-		if w.TracePos > last.FiredAt {
-			return "write-after-fault", fmt.Sprintf("SetValue(%x, %q) at trace position %d after the fault fired at %d", w.Owner, w.Key, w.TracePos, last.FiredAt)
-		}
-	}
 	info := host.Classify(res)
 	if res.Err == nil {
 		// documented exception 2: faults inside contracts.tryUpdate may be reported
-		// as an unsuccessful deployment result
+		// as an unsuccessful deployment result (the program then continues normally,
+		// including its writes)
 		if inTryUpdate(res.Trace, last.FiredAt) {
 			for _, l := range res.Logs {
 				if strings.Contains(l, "tryUpdate:deployed=false") {
@@ -130,6 +127,12 @@ func faultVerdict(res host.Result, faults []*host.Fault) (string, string) {
 			return "swallowed", "fault inside contracts.tryUpdate: execution succeeded but the deployment result does not report failure"
 		}
 		return "swallowed", "execution reported success although the host callback failed"
+	}
+	// no SetValue after the fault
+	for _, w := range res.Writes {
+		if w.TracePos > last.FiredAt {
+			return "write-after-fault", fmt.Sprintf("SetValue(%x, %q) at trace position %d after the fault fired at %d", w.Owner, w.Key, w.TracePos, last.FiredAt)
+		}
 	}
 	if res.Value != nil {
 		return "value-with-error", "a result value was returned together with an error"
@@ -186,11 +189,41 @@ func runFaultCase(fc FaultCase, pre *host.Host) (host.Result, []*host.Fault) {
 	return res, faults
 }
 
-// knownFX1: RecoverProgram's returned error is discarded by
-// CheckingEnvironment.recoverProgram (the original parsing/checking error is
-// reported instead).
-func isFX1(fc FaultCase, class string) bool {
-	return fc.Kind == "RecoverProgram" && fc.Variant == host.FaultError && fc.Kind2 == "" && class == "not-carried"
+// Known findings (narrow predicates; only applied when listed in known_findings.json).
+//
+// FX1: RecoverProgram's returned error is discarded by CheckingEnvironment.recoverProgram
+//      (the original parsing/checking error is reported instead).
+// FX2: BLS.aggregateSignatures / aggregatePublicKeys map any host error to nil.
+// FX3: vmEnvironment.load{Composite,Interface,Entitlement,EntitlementMap}Type discard the error of
+//      loadProgram (GetOrLoadProgram) -> TypeLoadingError user error, or "type absent" and success.
+// FX4: atree CheckStorageHealth tests `!ok` before `err` -> a GetValue error during the post-commit
+//      health check surfaces as SlabNotFoundError without the cause (dependency atree v0.16.1).
+func knownFinding(fc FaultCase, class string, res host.Result, faults []*host.Fault) string {
+	if fc.Kind2 != "" {
+		return ""
+	}
+	info := host.Classify(res)
+	switch {
+	case fc.Kind == "RecoverProgram" && fc.Variant == host.FaultError && class == "not-carried":
+		return "FX1"
+	case (fc.Kind == "BLSAggregateSignatures" || fc.Kind == "BLSAggregatePublicKeys") && fc.Variant == host.FaultError &&
+		(class == "swallowed" || class == "not-carried"):
+		return "FX2"
+	case fc.Kind == "GetOrLoadProgram" && fc.Variant == host.FaultError && host.Engine(fc.Engine) != host.Interp &&
+		(class == "swallowed" || (class == "not-carried" && info.HasType("TypeLoadingError"))):
+		return "FX3"
+	case fc.Kind == "GetValue" && fc.Variant == host.FaultError && class == "not-carried" && info.HasType("atree.SlabNotFoundError") &&
+		len(res.Writes) > 0 && res.Writes[0].TracePos < faults[0].FiredAt:
+		return "FX4"
+	}
+	return ""
+}
+
+var knownRepros = map[string]FaultCase{
+	"FX1": {Item: findItem("script-check-error"), Engine: 0, Step: 0, Kind: "RecoverProgram", Index: 0, Variant: host.FaultError},
+	"FX2": {Item: findItem("script-bls"), Engine: 0, Step: 0, Kind: "BLSAggregateSignatures", Index: 0, Variant: host.FaultError},
+	"FX3": {Item: findItem("script-containers"), Engine: 1, Step: 0, Kind: "GetOrLoadProgram", Index: 2, Variant: host.FaultError},
+	"FX4": {Item: findItem("tx-storage-big"), Engine: 1, Step: 1, Kind: "GetValue", Index: 14, Variant: host.FaultError},
 }
 
 func TestC28(t *testing.T) {
@@ -212,11 +245,13 @@ func TestC28(t *testing.T) {
 		return
 	}
 
-	if rec.Known("FX1") {
-		fc := FaultCase{Item: findItem("script-check-error"), Engine: 0, Step: 0, Kind: "RecoverProgram", Index: 0, Variant: host.FaultError}
-		res, faults := runFaultCase(fc, nil)
-		class, _ := faultVerdict(res, faults)
-		rec.ReportKnown("FX1", class == "not-carried")
+	for _, id := range []string{"FX1", "FX2", "FX3", "FX4"} {
+		if rec.Known(id) {
+			fc := knownRepros[id]
+			res, faults := runFaultCase(fc, nil)
+			class, viol := faultVerdict(res, faults)
+			rec.ReportKnown(id, viol != "" && knownFinding(fc, class, res, faults) == id)
+		}
 	}
 
 	items := execgen.FullCorpus()
@@ -267,11 +302,16 @@ func TestC28(t *testing.T) {
 							rec.Class("clean-run-failing-step")
 						}
 						if viol != "" {
-							if isFX1(fc, class) && rec.Known("FX1") {
-								rec.Excluded("FX1")
+							if id := knownFinding(fc, class, res, faults); id != "" && rec.Known(id) {
+								rec.Excluded(id)
+								rec.Class("known:" + id)
 								continue
 							}
 							fc.Item = slimItem(it, si)
+							if debugCollect() {
+								fmt.Printf("DEBUG-VIOLATION %s on %s step %d fault %s#%d/%s: %s: %s\n", it.Name, eng, si, pt.kind, pt.index, variant, class, viol)
+								continue
+							}
 							rec.Violation(t, fc, "%s on %s step %d fault %s#%d/%s: %s: %s", it.Name, eng, si, pt.kind, pt.index, variant, class, viol)
 						}
 						if rec.WantSample(class) {
@@ -362,6 +402,9 @@ var reachableKinds = []string{
 // the latter two have no error result and lib/host does not route them through the fault injector.
 var unreachableKinds = []string{"ValueExists", "ImplementationDebugLog", "ResourceOwnerChanged", "RecordTrace"}
 
+// debugCollect (EXEC_DEBUG_COLLECT=1) prints all C28 violations instead of stopping at the first (development aid).
+func debugCollect() bool { return os.Getenv("EXEC_DEBUG_COLLECT") != "" }
+
 func errText(err error) string {
 	if err == nil {
 		return ""
@@ -385,7 +428,7 @@ func findItem(name string) execgen.Item {
 // slimItem drops the steps after si (they are irrelevant for the replay).
 func slimItem(it execgen.Item, si int) execgen.Item {
 	c := it
-	c.Hist.Steps = append([]execgenStep(nil), it.Hist.Steps[:si+1]...)
+	c.Hist.Steps = append([]prog.Step(nil), it.Hist.Steps[:si+1]...)
 	return c
 }
 
